@@ -43,6 +43,14 @@ func ruleT1e(c *Ctx) {
 				if !ok || len(cl.Elts) < 4 {
 					return true
 				}
+				// a membership list (slice, array, set) — not a table that maps some registers to values
+				if mt, isMap := p.TypesInfo.TypeOf(cl).Underlying().(*types.Map); isMap {
+					el := mt.Elem().Underlying()
+					_, isStruct := el.(*types.Struct)
+					if !isBoolType(el) && !isStruct {
+						return true
+					}
+				}
 				names := map[string]bool{}
 				cls := ""
 				pure := true
